@@ -876,7 +876,22 @@ func (g *Gen) famAolAdv() {
 		}
 	case 7: // same topic name under a different owner, and duplicates
 		g.tx(M("aol.CreateTopic", "topic", t[1], "owner", stranger))
+		emptied := false
+		if len(ws) > 0 && len(ws) <= 3 && r.Chance(0.5) {
+			// ... of a topic that has lost every writer (its records stay): it still exists
+			for _, w := range ws {
+				g.tx(M("aol.DeleteWriter", "topic", t[1], "owner", t[0], "writer", w))
+			}
+			emptied = true
+		}
 		g.tx(M("aol.CreateTopic", "topic", t[1], "owner", t[0], "desc", "dup"))
+		if emptied {
+			g.tx(M("aol.AddWriter", "topic", t[1], "owner", t[0], "writer", ws[0], "moniker", "back"))
+			if acc := g.env.AccByAddr(mustAddr(ws[0])); acc != nil {
+				g.tx(g.recordSpec(t[0], t[1], ws[0], ""))
+				g.tx(g.recordSpec(t[0], t[1], ws[0], ""))
+			}
+		}
 	case 8: // stale sequence / wrong chain id
 		spec := &TxSpec{Msgs: []MsgSpec{M("aol.AddWriter", "topic", t[1], "owner", t[0], "writer", stranger)}}
 		if r.Chance(0.5) {
@@ -1673,7 +1688,22 @@ func (g *Gen) famPnftAdv() {
 	d := dens[r.Intn(len(dens))]
 	owner := g.plan.Denoms[d].Owner
 	stranger := g.addr(6 + r.Intn(3))
-	switch r.Intn(14) {
+	switch r.Intn(16) {
+	case 15: // identifiers that BEGIN with the separator byte of the x/nft keys: were they admitted, the by-denom listings would mix
+		a := g.addr(r.Intn(5))
+		ids := [][2]string{{"\x00", "\x00\x00"}, {"\x00", "\x00lab"}, {"\x00\x00", "\x00"}}[r.Intn(3)]
+		for _, id := range ids {
+			g.tx(M("pnft.CreateDenom", "id", id, "name", "n", "symbol", "s", "creator", a))
+			g.tx(M("pnft.Mint", "denom", id, "id", []string{"a", "lab", "\x00a"}[r.Intn(3)], "name", "n", "creator", a))
+		}
+	case 14: // the only token of a fresh denom is named after ANOTHER denom and burnt: nothing of that other denom may move
+		solo := fmt.Sprintf("solo%d", g.next)
+		a := g.addr(r.Intn(5))
+		g.tx(M("pnft.CreateDenom", "id", solo, "name", "solo", "symbol", "S", "creator", a))
+		g.tx(M("pnft.Mint", "denom", solo, "id", d, "name", "n", "creator", a))
+		g.tx(M("pnft.Burn", "denom", solo, "id", d, "burner", a))
+		g.tx(M("pnft.DeleteDenom", "id", d, "remover", owner)) // refused while d holds tokens
+		g.tx(M("pnft.Mint", "denom", d, "id", fmt.Sprintf("after-solo%d", g.next), "name", "n", "creator", owner))
 	case 13: // a denom id that changes hands by deletion and re-creation: whatever the first owner could do ended with the deletion
 		id := fmt.Sprintf("reborn%d", g.next)
 		if r.Chance(0.4) {
